@@ -229,7 +229,7 @@ impl EnvCompleter for Fish {
         current_dir: Option<&std::path::Path>,
         buf: &mut dyn std::io::Write,
     ) -> Result<(), std::io::Error> {
-        let index = args.len() - 1;
+        let index = args.len().saturating_sub(1);
         let completions = crate::engine::complete(cmd, args, index, current_dir)?;
 
         for candidate in completions {
@@ -314,7 +314,7 @@ Register-ArgumentCompleter -Native -CommandName {bin} -ScriptBlock {{
         current_dir: Option<&std::path::Path>,
         buf: &mut dyn std::io::Write,
     ) -> Result<(), std::io::Error> {
-        let index = args.len() - 1;
+        let index = args.len().saturating_sub(1);
         let completions = crate::engine::complete(cmd, args, index, current_dir)?;
 
         for candidate in completions {
